@@ -157,9 +157,25 @@ Lemma invd_step : forall s a s' e, Inv s -> InvD s -> step s a = Some (s', e) ->
 Proof.
   intros s a s' e HI HD H.
   destruct (match a with UpAck _ => true | _ => false end) eqn:Ea.
-  - (* UpAck *) destruct a; try discriminate. admit.
+  - (* UpAck *) destruct a; try discriminate. clear Ea. inv_step H.
+    assert (Hck : forall c, ck (set_pc (set_cn (set_dial s d (d_set d0 DReturned None)) d
+                 {| c_key := d_key d0; c_subs := []; c_closed := false; c_dead := None; c_timers := 0;
+                    c_tclose := 0; c_rl := RLRun; c_rm := false |}) (d_owner d0) (SPublish d None)) c
+               = if Nat.eqb c d then Some (d_key d0) else ck s c).
+    { intros c. unfold ck; simpl. unfold upd. destruct (Nat.eqb_spec c d); reflexivity. }
+    fwd_dials HD; fwd_imp; dd HD.
+    constructor; unfold owner_free; intros; rewrite ?Hck in *; simp.
+    all: eqb_cases; key_cases; inj_all; simpl in *; eauto; try congruence; try tauto.
+    all: fwd_maps HD; fwd_dials HD; split_or; fwd_same; fin2.
+    all: try solve [apply (D8 _ HD); lia].
+    all: try (f_equal; symmetry; eauto; fail).
+    all: try match goal with
+             | H : pc ?s ?j = SDial ?d |- _ =>
+               let G := fresh "G" in let y := fresh "y" in
+               pose proof (D4 _ HD j d) as G; rewrite H in G; simpl in G; destruct (G eq_refl) as (y & ? & ?); clear G
+             end; spec_refl; fwd_same; fin2.
   - assert (Hck : forall c, ck s' c = ck s c) by (eapply ck_step; eauto; intros d0 E; subst; discriminate).
-    clear Ea. destruct a; inv_step H.
+    destruct a; try discriminate; clear Ea; inv_step H.
     all: destr_hyp_match; inj_all.
     all: try fwd_d HD; fwd_dials HD; dd HD; frames.
     all: constructor; unfold owner_free; intros; rewrite ?Hck in *; simp;
@@ -176,14 +192,11 @@ Proof.
       try (match goal with H : ck ?s ?c = Some _ |- _ => rewrite H in * end);
       spec_refl; fwd_imp; fin2.
     all: try (match goal with H : context [after ?k] |- _ => destruct k; simpl in H end); try tauto;
-      repeat match goal with
+      try match goal with
              | H : pc ?s ?j = SDial ?d |- _ =>
                lazymatch goal with
                | _ : d_key _ = okey s j |- _ => fail
                | _ => let G := fresh "G" in pose proof (D4 _ HD j d) as G; rewrite H in G; simpl in G; specialize (G eq_refl)
                end
              end; spec_refl; fwd_same; fin2.
-    all: idtac "LEFT".
-    Show.
-    all: admit.
-Admitted.
+Qed.
